@@ -1,6 +1,8 @@
 import TLVerif.Util.Hex
 import TLVerif.Tool.Tags
 import TLVerif.Tool.OutDir
+import TLVerif.Tool.LegacyOutDir
+import TLVerif.Generated.ToolLegacyFacts
 import TLVerif.Tool.RelPath
 import TLVerif.Tool.Deconflict
 import TLVerif.Tool.Walk
@@ -95,6 +97,54 @@ def handleOutdir (fmt : Path → String → String) (marker steps : String) : St
     let nok := (rs.filter fun r => r.outcome == .ok).length
     s!"r={nok}.{rs.length - nok} " ++ "|".intercalate (rs.map showResult)
 
+/-! ### C16, legacy writer `(*Gen2).WriteToDir` -/
+
+def parseLStep (w : String) : Option LStep :=
+  match w.splitOn ":" with
+  | "g" :: c :: _ => (parseCode c).map LStep.gen
+  | ["p", kv] => (parseKV kv).map fun (k, v) => LStep.plantFile k v
+  | ["d", d] => if d.isEmpty then none else some (LStep.plantDir d)
+  | ["r", k] => if k.isEmpty then none else some (LStep.rm k)
+  | _ => none
+
+def showLResult (r : LWriteResult) : String :=
+  let o := match r.outcome with
+    | .ok => "ok"
+    | .refused => "ref"
+    | .twice => "dup"
+  let t := sortStrs (r.fs.files.map fun kv => kv.1 ++ "=" ++ kv.2)
+  s!"{o};w={showList (sortStrs r.written)};x={showList (sortStrs r.deleted)};T={showList t};D={showList (sortStrs r.fs.dirs)}"
+
+def showLHistory (rs : List LWriteResult) : String :=
+  if rs.isEmpty then "none" else
+  let nok := (rs.filter fun r => r.outcome == .ok).length
+  s!"r={nok}.{rs.length - nok} " ++ "|".intercalate (rs.map showLResult)
+
+/-- in-process legacy writer with abstract code maps; the marker content is the identifier `mk` -/
+def handleLOutdir (lang steps : String) : String :=
+  match allSome ((steps.splitOn ";").map parseLStep) with
+  | none => "bad-op"
+  | some st =>
+    let marker := TLVerif.Facts.ToolLegacy.legacyMarkerFile
+    let (fmt, keep) : (Path → String → String) × (Path → Bool) :=
+      if lang == "cpp" then (fmtIdsCpp, cppKeep) else ((fun _ c => c), fun _ => false)
+    showLHistory (runLegacyHistory fmt keep marker "mk" FS.empty st).2
+
+/-- real `tlgen -language=cpp` runs: the claimed file list of each generation contains the marker entry (its content is
+the same in every generation of a history); the model's writer adds the marker itself, so it is split off -/
+def handleLOutcli (steps : String) : String :=
+  match allSome ((steps.splitOn ";").map parseLStep) with
+  | none => "bad-op"
+  | some st =>
+    let marker := TLVerif.Facts.ToolLegacy.legacyMarkerFile
+    let mc := (st.findSome? fun s => match s with
+      | .gen code => alookup marker code
+      | _ => none).getD "mk"
+    let st' := st.map fun s => match s with
+      | .gen code => LStep.gen (code.filter fun kv => kv.1 ≠ marker)
+      | other => other
+    showLHistory (runLegacyHistory (fun _ c => c) cppKeep marker mc FS.empty st').2
+
 def textOfHex (h : String) : Option String :=
   (bytesOfHex h).map fun bs => String.ofList (bs.map fun b => Char.ofNat b.toNat)
 
@@ -139,6 +189,8 @@ def handle (op : String) (args : List String) : String :=
   | "tagscli", [t1, t2, _, _] => handleTags t1 t2
   | "outdir", [marker, steps] => handleOutdir fmtIds marker steps
   | "relpath", [a, b] => handleRelPath a b
+  | "loutdir", [lang, steps] => handleLOutdir lang steps
+  | "loutcli", [_, steps] => handleLOutcli steps
   | "dec", [pre, names] => handleDec pre names
   | "walk", [ext, tree, roots] => handleWalk ext tree roots
   | "outcli", [marker, steps] => handleOutdir (fun _ c => c) marker steps
